@@ -104,6 +104,12 @@ def atom_tuple(a):
             tuple(float(x) for x in a.position), v)
 
 
+def atom_tuple_of_line(t):
+    """a parsed line as `GroFile.next()` returns it → the oracle's tuple"""
+    v = tuple(float(x) for x in t[7:10]) if len(t) == 10 else None
+    return (int(t[0]), str(t[1]), str(t[2]), int(t[3]), tuple(float(x) for x in t[4:7]), v)
+
+
 def residue_tuples(res):
     return [atom_tuple(a) for a in res]
 
@@ -150,6 +156,10 @@ def tok_ops(ops):
             out.append(f"ix {int(op[1])}")
         elif op[0] == "it":
             out.append("it")
+        elif op[0] in ("o", "str", "pn", "pr"):      # GMModel.SysStr (sysgrox / systemx)
+            out.append(op[0])
+        elif op[0] == "ps":
+            out.append(f"ps {int(op[1])}")
         else:
             raise ValueError(op)
     return " ".join(out)
@@ -205,6 +215,21 @@ class Toks:
 
     def done(self):
         return self.i == len(self.t)
+
+
+def other_index(kind, n=0):
+    """an index that is neither `int` nor `slice`"""
+    import numpy as np
+    return {"npint": np.int64(0), "float": 0.0, "str": "0", "none": None, "tuple": (0,), "list": [0],
+            "npint-neg": np.int64(-1), "npuint": np.uint8(0), "ellipsis": Ellipsis}[kind]
+
+
+OTHER_KINDS = ["npint", "float", "str", "none", "tuple", "list", "npint-neg", "npuint", "ellipsis"]
+
+
+def expected_str(comp):
+    """`str(view)` for a composition {name: count}, written out from the docstring-less format of `__str__`"""
+    return "Simulation system with:\n\n" + "\n".join("%-6s: %d" % (k, v) for k, v in sorted(comp.items()))
 
 
 # ----------------------------------------------------------------------------- slices / indices
